@@ -168,17 +168,37 @@ pub fn set_spec(cfg: GenCfg) -> impl Strategy<Value = SetSpec> {
 
 /// small TileJSON-like metadata documents (the rich generator lives in the C17 check)
 pub fn meta_doc() -> impl Strategy<Value = String> {
-	("[a-zA-Z0-9 _-]{0,12}", "[a-zA-Z0-9 ,.;:!?äöü€/-]{0,30}", proptest::option::of("[a-z]{1,8}"), prop_oneof![3 => Just(0u32), 2 => 1u32..]).prop_map(|(name, desc, attribution, spell)| {
+	(
+		"[a-zA-Z0-9 _-]{0,12}",
+		"[a-zA-Z0-9 ,.;:!?äöü€/-]{0,30}",
+		proptest::option::of("[a-z]{1,8}"),
+		prop_oneof![3 => Just(0u32), 2 => 1u32..],
+		// the other strings MBTiles has a row for (version must look like a version number)
+		(proptest::option::of("[a-zA-Z ]{1,10}"), proptest::option::of("[A-Za-z0-9 .-]{1,12}"), proptest::option::of(prop_oneof![Just("overlay".to_string()), Just("baselayer".to_string()), "[a-z]{1,8}"]), proptest::option::of((0u8..30, 0u8..30, 0u8..30))),
+	)
+		.prop_map(|(name, desc, attribution, spell, (author, license, kind, version))| {
 		let mut o = serde_json::Map::new();
 		o.insert("name".into(), serde_json::Value::String(name));
 		o.insert("description".into(), serde_json::Value::String(desc));
 		if let Some(a) = attribution {
 			o.insert("attribution".into(), serde_json::Value::String(a));
 		}
+		if let Some(a) = author {
+			o.insert("author".into(), serde_json::Value::String(a));
+		}
+		if let Some(a) = license {
+			o.insert("license".into(), serde_json::Value::String(a));
+		}
+		if let Some(a) = kind {
+			o.insert("type".into(), serde_json::Value::String(a));
+		}
+		if let Some((a, b, c)) = version {
+			o.insert("version".into(), serde_json::Value::String(format!("{a}.{b}.{c}")));
+		}
 		if spell % 4 == 2 {
 			// enough entries for a text beyond 4 and 8 KiB once the white space is added
 			o.insert("tilejson".into(), serde_json::Value::String("3.0.0".into()));
-			o.insert("legend".into(), serde_json::Value::Array((0..40).map(|i| serde_json::Value::String(format!("entry {i}"))).collect()));
+			o.insert("data".into(), serde_json::Value::Array((0..40).map(|i| serde_json::Value::String(format!("entry {i}"))).collect()));
 		}
 		respell(&serde_json::Value::Object(o).to_string(), spell)
 	})
